@@ -2,13 +2,14 @@
 their args."""
 from __future__ import annotations
 
+import ast
 import itertools
 from typing import List, Optional
 
 from .. import terms as tm
 from ..interp import Interp
-from ..lib import comparisons, fmt, is_call_to, keyed_writes, per_element, \
-    sweep
+from ..lib import comparisons, fmt, is_call_to, keyed_writes, \
+    parse_time_transform, parser_arguments, per_element, sweep
 from ..terms import T, const
 from .c17 import find_sinks
 
@@ -59,7 +60,7 @@ MANIFEST = dict(
               "effect/sink inventory",
 )
 FLOORS = {"C18.1": 2, "C18.2": 4, "C18.3": 2, "C18.4": 3, "C18.5": 3,
-          "C18.6": 4, "C18.7": 4}
+          "C18.6": 4, "C18.7": 4, "C18.8": 4, "C18.9": 1}
 
 MC = "evo.main_config."
 ST = "evo.tools.settings."
@@ -78,6 +79,8 @@ def check(ctx):
     _upgrade(ctx, prog)
     _lock(ctx, prog)
     _merge_config(ctx, prog)
+    _override_order(ctx, prog)
+    _parser_types(ctx, prog)
     _generate(ctx, prog)
 
 
@@ -402,6 +405,137 @@ def _lock(ctx, prog):
            "from_json_file does not override it)" if ok and ctor_ok else
            "the loaded settings container is not locked",
            key="C18.5:locked-by-default")
+
+
+def _top_level_imports(m, mods):
+    """evo modules imported when module `m` is imported (statements outside
+    function bodies, including those under module-level if / try / class)"""
+    out = set()
+
+    def visit(stmts):
+        for st in stmts:
+            if isinstance(st, (ast.FunctionDef, ast.AsyncFunctionDef)):
+                continue
+            if isinstance(st, ast.ClassDef):
+                visit(st.body)
+                continue
+            if isinstance(st, ast.Import):
+                for a in st.names:
+                    out.add(a.name)
+            elif isinstance(st, ast.ImportFrom):
+                base = st.module or ""
+                if st.level:
+                    pkg = m.name.rsplit(".", st.level)[0]
+                    base = pkg + ("." + base if base else "")
+                out.add(base)
+                for a in st.names:
+                    out.add(base + "." + a.name)
+            for fld in ("body", "orelse", "finalbody"):
+                sub = getattr(st, fld, None)
+                if isinstance(sub, list):
+                    visit([x for x in sub if isinstance(x, ast.stmt)])
+            for h in getattr(st, "handlers", []) or []:
+                visit(h.body)
+    visit(m.tree.body)
+    return {x for x in out if x in mods}
+
+
+def _import_time_consumers(mods):
+    """modules whose import-time code reads the SETTINGS container (so the
+    values current at *import* are what takes effect)"""
+    out = {}
+    for name, m in mods.items():
+        if name == "evo.tools.settings":
+            continue              # defines the container
+        for st in m.tree.body:
+            if isinstance(st, (ast.FunctionDef, ast.AsyncFunctionDef,
+                               ast.ClassDef, ast.Import, ast.ImportFrom)):
+                continue
+            for n in ast.walk(st):
+                if (isinstance(n, ast.Name) and n.id == "SETTINGS") or \
+                        (isinstance(n, ast.Attribute) and
+                         n.attr == "SETTINGS"):
+                    out.setdefault(name, st.lineno)
+    return out
+
+
+def _override_order(ctx, prog):
+    """C18.8: '-c overrides matching package settings for that run' — the
+    override happens in launch() after the parser module and the main module
+    were imported, so no module in their import-time closure may apply
+    settings while being imported (evo.tools.plot does: apply_settings at
+    module level; it must stay a lazy, function-level import there)."""
+    mods = prog.modules
+    consumers = _import_time_consumers(mods)
+    ctx.require("evo.tools.plot" in consumers, "evo.tools.plot no longer "
+                "applies settings at import time (rule instance vanished)")
+    hep = prog.func("evo.entry_points.handle_entry_point")
+    src = ast.unparse(hep.node)
+    ctx.require("import_module" in src and "launch(" in src,
+                "handle_entry_point: import-then-launch sequence not found")
+    for app in ("ape", "rpe", "res", "traj"):
+        roots = [f"evo.main_{app}_parser", f"evo.main_{app}"]
+        ctx.require(all(r in mods for r in roots), f"modules of evo_{app} "
+                    f"not found")
+        seen, todo, via = set(), list(roots), {}
+        while todo:
+            x = todo.pop()
+            if x in seen or x not in mods:
+                continue
+            seen.add(x)
+            parts = x.split(".")
+            for k in range(1, len(parts)):
+                p_ = ".".join(parts[:k])
+                if p_ in mods and p_ not in seen:
+                    via.setdefault(p_, x)
+                    todo.append(p_)
+            for y in _top_level_imports(mods[x], mods):
+                via.setdefault(y, x)
+                todo.append(y)
+        bad = sorted(seen & set(consumers))
+        chain = ""
+        if bad:
+            c, path = bad[0], [bad[0]]
+            while c in via and via[c] not in path:
+                c = via[c]
+                path.append(c)
+            chain = " <- ".join(path)
+        ctx.ob("C18.8", prog.func(f"evo.main_{app}.run"), not bad,
+               f"evo_{app}: no module imported before the -c override "
+               f"applies settings at import time ({len(seen)} modules in the "
+               f"import-time closure)" if not bad else
+               f"evo_{app}: {bad[0]} reads SETTINGS while being imported "
+               f"(line {consumers[bad[0]]}) and is now imported at module "
+               f"level ({chain}) — i.e. before launch() merges the -c "
+               f"config: import-time settings (line width, font, style, "
+               f"backend ...) keep their on-disk values for that run",
+               key=f"C18.8:{app}:import-order")
+
+
+def _parser_types(ctx, prog):
+    """C18.9: merge_config injects the raw JSON values of a config file into
+    the namespace, bypassing argparse. 'A generated config has the same
+    effect as passing the arguments directly' therefore needs every option
+    to reach the namespace as typed: only int/float/str conversions (which
+    JSON round-trips) and standard actions — an enum-valued `type=`, a
+    custom Action or a converting callable would only run for command-line
+    values."""
+    args_ = parser_arguments(prog)
+    ctx.require(len(args_) >= 100, f"only {len(args_)} add_argument calls "
+                f"found in the parser modules")
+    bad = [(m, n, o, parse_time_transform(k)) for m, n, o, k in args_
+           if parse_time_transform(k)]
+    for m, n, o, why in bad:
+        ctx.ob("C18.9", f"{getattr(prog.modules[m], 'path', m)}:{n.lineno}", False,
+               f"{m}: option {o or '?'} is converted while parsing "
+               f"({why}); the same option given through a -c config file "
+               f"reaches run() unconverted, so a generated config no longer "
+               f"has the effect of the command line",
+               key=f"C18.9:{m}:{(o or ['?'])[0]}")
+    ctx.ob("C18.9", prog.func("evo.entry_points.merge_config"), not bad,
+           f"all {len(args_)} options of the four parsers reach the "
+           f"namespace as typed (plain int/float/str, standard actions)",
+           key="C18.9:all-options", nontrivial=True)
 
 
 def _merge_config(ctx, prog):
